@@ -510,7 +510,11 @@ pub fn run_c10(args: &Args, tier: &str, seed: u64) -> Report {
 
 // =================================================================== C09
 
-const EXTRA_VOCAB: [&str; 9] = ["requesting-user-name", "document-format", "job-name", "compression", "ipp-attribute-fidelity", "document-name", "limit", "my-jobs", "which-jobs"];
+// ordinary attributes, incl. case variants and near misses of the specially placed names (which are NOT special)
+const EXTRA_VOCAB: [&str; 17] = [
+    "requesting-user-name", "document-format", "job-name", "compression", "ipp-attribute-fidelity", "document-name", "limit", "my-jobs", "which-jobs",
+    "Job-Id", "JOB-ID", "Attributes-Charset", "Attributes-Natural-Language", "Printer-Uri", "job-ids", "printer-uri-supported", "Job-Uri",
+];
 
 pub fn run_c09(args: &Args, tier: &str, seed: u64) -> Report {
     let n: u64 = args.u64("--cases", tier_pick(tier, 1_500, 60_000));
@@ -534,6 +538,9 @@ pub fn run_c09(args: &Args, tier: &str, seed: u64) -> Report {
                 6 => 2,
                 _ => 3,
             };
+            // (reordering the group vector through groups_mut() is outside the property's quantifier - constructors, builders
+            // and additions only - and is deliberately not generated)
+            let reorder = false;
             let p = gen_program(&mut r0);
             // further additions, in random order, from a vocabulary containing the target attributes
             let nadd = r0.range(0, 6);
@@ -566,7 +573,7 @@ pub fn run_c09(args: &Args, tier: &str, seed: u64) -> Report {
             }
             r0.shuffle(&mut adds);
             let describe = format!(
-                "base={} adds={:?}",
+                "base={} reordered-groups={reorder} adds={:?}",
                 match base {
                     0 => program_summary(&p),
                     1 => "IppRequestResponse::new(.., None)".into(),
@@ -591,6 +598,13 @@ pub fn run_c09(args: &Args, tier: &str, seed: u64) -> Report {
                     };
                     for (g, name, v) in &adds {
                         req.attributes_mut().add(mirror::delim(*g), IppAttribute::new(name, mirror::to_ipp_value(v)));
+                    }
+                    if reorder {
+                        let groups = req.attributes_mut().groups_mut();
+                        if groups.len() >= 2 {
+                            let n = groups.len();
+                            groups.rotate_left(1 + (idx as usize / 5) % (n - 1));
+                        }
                     }
                     req.to_bytes().to_vec()
                 });
@@ -755,7 +769,7 @@ pub fn run_c13(args: &Args, tier: &str, seed: u64) -> Report {
                 }
             }
             // every request constructor (9 take a URI) on a strided subset
-            if idx % 16 == (seed % 16) || only.is_some() {
+            if idx % 16 == (seed % 16) || only.is_some() || s.len() > 900 {
                 for op in [0usize, 1, 2, 3, 4, 5, 6, 7, 9] {
                     rep.eval();
                     rep.count("constructor_checks", 1);
@@ -794,7 +808,7 @@ pub fn run_c13(args: &Args, tier: &str, seed: u64) -> Report {
         rep.merge(r);
     }
     rep.extra.insert("grid_size".into(), J::Int(grid.len() as i64));
-    rep.rule = "G5: target URIs assembled from known components: exhaustive grid (4 schemes x 9 hosts (reg-name, IPv4, IPv6 literals) x 8 port forms x 8 user-info forms (incl. raw @) x 8 paths x 6 queries) plus seeded random URIs; user-info and query carry TAINT markers. Oracle: components of the canonical printer-uri (own splitter, not http::Uri) vs the inputs: IPP scheme, same host, port iff given (numerically equal), same path (''=='/'), no user-info, no query, no marker anywhere in the printer-uri or in to_bytes() of requests from all 9 URI-taking constructors and the raw constructor; idempotence. Strings http::Uri refuses are counted and skipped. Non-trivial = target carrying user-info or a query.".into();
+    rep.rule = "G5: target URIs assembled from known components: exhaustive grid (4 schemes x 10 hosts (reg-name incl. a trailing-dot FQDN, IPv4, IPv6 literals) x 8 port forms x 8 user-info forms (incl. raw @) x 9 paths x 6 queries) plus seeded random URIs (incl. paths of 1-20 KiB); user-info and query carry TAINT markers. Oracle: components of the canonical printer-uri (own splitter, not http::Uri) vs the inputs: IPP scheme, same host, port iff given (numerically equal), same path (''=='/'), no user-info, no query, no marker anywhere in the printer-uri or in to_bytes() of requests from all 9 URI-taking constructors and the raw constructor; idempotence. Strings http::Uri refuses are counted and skipped. Non-trivial = target carrying user-info or a query.".into();
     if only.is_none() {
         rep.require(rep.sets.get("host_forms").map(|s| s.len()).unwrap_or(0) == 3, "reg-name, IPv4 and IPv6 hosts exercised");
         rep.require(rep.evaluations > grid.len() as u64 / 2, "most grid targets accepted by the URI parser");
